@@ -14,15 +14,51 @@ if VERIF not in sys.path:
 NPROC = int(os.environ.get('VERIF_JOBS', '16'))
 
 
-def _exec_chunk(chunk):
+def _exec_one(scn):
     from harness import engine, probes
-    out = []
-    for sid, scn in chunk:
+    try:
+        return engine.execute(scn, probes)
+    except BaseException as ex:  # machinery failure: keep going, report
+        import traceback
+        return {'scn': scn, 'lines': [], 'abort': 'harness:' + repr(ex), 'tb': traceback.format_exc(), 'probe_missing': []}
+
+
+def _exec_forked(scn):
+    """run one scenario in a forked child (pristine interpreter state as far as this scenario is concerned)"""
+    import pickle
+    r, w = os.pipe()
+    pid = os.fork()
+    if pid == 0:
         try:
-            tr = engine.execute(scn, probes)
-        except BaseException as ex:  # machinery failure: keep going, report
-            import traceback
-            tr = {'scn': scn, 'lines': [], 'abort': 'harness:' + repr(ex), 'tb': traceback.format_exc(), 'probe_missing': []}
+            os.close(r)
+            data = pickle.dumps(_exec_one(scn))
+            with os.fdopen(w, 'wb') as f:
+                f.write(data)
+        finally:
+            os._exit(0)
+    os.close(w)
+    with os.fdopen(r, 'rb') as f:
+        data = f.read()
+    os.waitpid(pid, 0)
+    return pickle.loads(data)
+
+
+def _left_unfinished(tr):
+    if tr.get('abort'):
+        return True
+    end = tr['lines'][-1] if tr['lines'] else {}
+    return bool(end.get('blocked') or end.get('open'))
+
+
+def _exec_chunk(chunk):
+    out = []
+    dirty = False
+    for sid, scn in chunk:
+        # a scenario that ended with blocked drivers / unfinished handlers / an abort leaves suspended coroutines behind; the interpreter
+        # finalises them whenever it likes, and their `finally` blocks then run in the middle of a later scenario of this worker.  From
+        # the first such scenario on, every further scenario of the chunk runs in a forked child of its own.
+        tr = _exec_forked(scn) if dirty else _exec_one(scn)
+        dirty = dirty or _left_unfinished(tr)
         out.append((sid, tr))
     return out
 
